@@ -228,25 +228,32 @@ def partitions(ck, an):
             lo, hi = min(lo, pc[e][0]), max(hi, pc[e][1])
     ck.check(hi == 1, "PATHCOUNT", "S2.at-most-one-partition", subj, fa.loc(loop), "an event is appended to at most one partition", f"an event can be appended {hi} times", construct=stmt_text(loop))
     # every skip inside the loop is the after-grid filter
+    allowed_continues, kinds_of = set(), {}
+
     def _files_or_skips(n_):
         # a branch decides whether / where an event is filed only if it appends, skips or raises; one that merely computes a local does not
         return any(isinstance(x, (ast.Continue, ast.Break, ast.Raise, ast.Return)) or (isinstance(x, ast.Call) and isinstance(x.func, ast.Attribute) and x.func.attr in ("append", "appendleft", "extend", "insert"))
                    for b_ in n_.body + n_.orelse for x in ast.walk(b_))
     for n in ast.walk(loop):
         if isinstance(n, ast.If) and _files_or_skips(n):
-            c = fa.sym.cmp(n.test)
+            guard_clause = len(n.body) == 1 and isinstance(n.body[0], ast.Continue) and not n.orelse      # `if not keep: continue` is `if keep: <rest of the body>`
+            c = fa.sym.cmp(n.test, neg=guard_clause)
+            if guard_clause:
+                allowed_continues.add(id(n.body[0]))
             kind = None
             evk = fa.sym.canon(ast.Name(id=ev, ctx=ast.Load()), fa.cfg.node_of(n.test).id)
-            if c[0] == "rel" and c[1] == "<=" and c[4] == Poly.atom(f"({evk}).time") - Poly.atom("self.timesteps[-1]") or (c[0] == "rel" and c[1] == "<=" and c[2] == f"-self.timesteps[-1] + ({evk}).time") \
-                    or (c[0] == "rel" and c[1] == "<=" and len(c[4].t) == 2 and c[4].coeff_of_atom("self.timesteps[-1]") == Poly.const(-1) and any(a.endswith(".time") and c[4].coeff_of_atom(a) == Poly.const(1) for a in c[4].atoms())):
+            grid_ = specv(fa, f"{ev}.time - self.timesteps[-1]", fa.cfg.node_of(n.test).id)
+            if c[0] == "rel" and c[1] == "<=" and c[4] == grid_:
                 kind = "grid"
             elif c[0] == "rel" and lat_p in c[2]:
                 kind = "latency"
             elif any(isinstance(b, ast.Raise) for b in n.body):
                 kind = "sanity-raise"
+            if guard_clause:
+                kinds_of[id(n.body[0])] = kind
             ck.check(kind is not None, "GUARD", "S2.no-other-filter", subj, fa.loc(n), f"branch in the partition loop is the {kind} test", f"an additional condition `{ast.unparse(n.test)[:60]}` decides whether events are filed",
                      construct="if " + ast.unparse(n.test))
-        if isinstance(n, (ast.Continue, ast.Break)):
+        if isinstance(n, (ast.Continue, ast.Break)) and not (id(n) in allowed_continues and kinds_of.get(id(n)) == "grid"):
             ck.fail("GUARD", "S2.no-other-filter", subj, fa.loc(n), "the partition loop skips events with continue/break", construct=stmt_text(n))
     # S6 latency bound
     tests = []
@@ -540,6 +547,27 @@ def nxt(ck, an):
              "_reset does not always rewind the step pointer", construct="self._step_nr = 0")
 
 
+def _pair_stored(an, fa):
+    """Some assignment (directly or through a temporary) stores element 0 of the transmitter's _next() pair as the latent
+    batch and element 1 as the non-latent one: read off the value ids of the two stores."""
+    import re as _re
+    vals = {"_events_latent": set(), "_events_nonlatent": set()}
+
+    def on_stmt(s, fw):
+        if isinstance(s, ast.Assign):
+            tg = s.targets[0]
+            pairs = list(zip(tg.elts, range(len(tg.elts)))) if isinstance(tg, (ast.Tuple, ast.List)) else [(tg, None)]
+            v = fw.ev(s.value)
+            for t, i in pairs:
+                if isinstance(t, ast.Attribute) and t.attr in vals:
+                    vals[t.attr].add(f"({v.key()})[{i}]" if i is not None else v.key())
+    Forward(an, fa, on_stmt=on_stmt, call_effects=False).run()
+    a = [m.group(1) for x in vals["_events_latent"] for m in [_re.match(r"^\((.*_next\(\).*)\)\[0\]$", x)] if m]
+    b = [m.group(1) for x in vals["_events_nonlatent"] for m in [_re.match(r"^\((.*_next\(\).*)\)\[1\]$", x)] if m]
+    swapped = any(x.endswith(")[1]") and "_next()" in x for x in vals["_events_latent"])
+    return bool(a) and bool(b) and set(a) == set(b) and not swapped, {k: sorted(v)[:3] for k, v in vals.items()}
+
+
 # ------------------------------------------------------------------ env side
 
 def env_side(ck, an):
@@ -639,9 +667,8 @@ def env_side(ck, an):
                  construct=stmt_text(nx[0]))
     ck.check(len(nx) == 1, "PATHCOUNT", "S2.one-prefetch", fn.f.short, fn.f.loc, "one batch is pre-fetched per step", f"{len(nx)} _next() calls", construct="self._transmitter._next()")
     for c in nx:
-        st = enclosing_stmt(c)
-        ok = isinstance(st, ast.Assign) and ast.unparse(st.targets[0]) in ("(self._events_latent, self._events_nonlatent)", "self._events_latent, self._events_nonlatent")
-        ck.check(ok, "ARGFLOW", "S7.batch-order-latent-first", fn.f.short, fn.loc(c), "_next()'s pair is stored as (latent, non-latent)", f"_next() result stored as {ast.unparse(st)[:70]}", construct=stmt_text(c))
+        ok, how = _pair_stored(an, fn)
+        ck.check(ok, "ARGFLOW", "S7.batch-order-latent-first", fn.f.short, fn.loc(c), "_next()'s pair is stored as (latent, non-latent)", f"_next() result stored as {how}", construct=stmt_text(c))
     own_callers(ck, an, "S2.latent-processing-callers", "TradingEnv._process_latent_events", {"TradingEnv.reset", "TradingEnv.step"})
     own_callers(ck, an, "S2.nonlatent-processing-callers", "TradingEnv._process_nonlatent_events", {"TradingEnv.reset", "TradingEnv.step"})
     # reset order
@@ -652,9 +679,8 @@ def env_side(ck, an):
     for i in range(len(seq) - 1):
         ord_before(ck, fr, f"S7.reset-order-{i}", seq[i], seq[i + 1], names[i], names[i + 1])
     for c in seq[1]:
-        st = enclosing_stmt(c)
-        ok = isinstance(st, ast.Assign) and ast.unparse(st.targets[0]) in ("(self._events_latent, self._events_nonlatent)", "self._events_latent, self._events_nonlatent")
-        ck.check(ok, "ARGFLOW", "S7.batch-order-latent-first", fr.f.short, fr.loc(c), "_next()'s pair is stored as (latent, non-latent)", f"_next() result stored as {ast.unparse(st)[:70]}", construct=stmt_text(c))
+        ok, how = _pair_stored(an, fr)
+        ck.check(ok, "ARGFLOW", "S7.batch-order-latent-first", fr.f.short, fr.loc(c), "_next()'s pair is stored as (latent, non-latent)", f"_next() result stored as {how}", construct=stmt_text(c))
 
 
 def _notify_loop(ck, an, fa, attr):
